@@ -1,12 +1,19 @@
 package c04
 
-import "verif/harness/vlib/proto"
+import (
+	"strings"
+
+	"verif/harness/vlib/proto"
+)
 
 // isFree reports whether an alteration of the given leaf class is one the protocol cannot and
 // need not detect (a value the sender may legitimately choose afresh at that point, or one whose
 // alteration leaves the run consistent). Everything not listed is bound.
-func isFree(sc *scenario, sl slot, class, op string) (bool, string) {
+func isFree(sc *scenario, sl slot, class, op, desc string) (bool, string) {
 	for _, e := range freeList {
+		if e.notPath != "" && strings.Contains(desc, e.notPath) {
+			continue
+		}
 		if e.match(sc.name, sl.round, sl.broadcast, class, op) && (e.from == 0 || e.from == sl.from) {
 			return true, e.why
 		}
@@ -20,6 +27,7 @@ type freeEntry struct {
 	class          string   // "" = any; exact class otherwise
 	op             string   // "" = any
 	from           proto.ID // 0 = any sender
+	notPath        string   // the entry does not apply when the concrete mutation touches a path containing this
 	why            string
 }
 
@@ -60,6 +68,24 @@ var freeList = []freeEntry{
 		why: "surplus trailing row of the extension's correlation message is ignored"},
 	{scenarioPrefix: "dkls23", round: "DKLS23SignRound4", class: "/psi*",
 		why: "psi is bound only through the aggregator's final verification (DKLs23 design: the recipient cannot check it locally); the verdict 'detected by the aggregator' is the designed detection point"},
+	// Hand-over to a disjoint holder set without trusted anchors (README "Identifiable Abort"): a
+	// next-only recipient without an anchor has no reference for the OLD metadata; it checks every
+	// sender's share against that sender's next verification-vector contribution, the aggregate, and
+	// that every sender's CLAIMED previous public key (PrevVerificationVector[0]) equals the new one.
+	// The previous MSP, the zero-sharing vector and the higher coefficients of the previous
+	// verification vector are consumed only by the per-sender identifiable checks, which such a
+	// recipient does not run ("some metadata failures degrade"): not bound for it. The claimed
+	// previous public key IS bound (entry excluded by notPath) and the output oracle S3 applies.
+	{scenarioPrefix: "redistribute-handover", round: "RedistributeRound2", class: "/PrevMSP/*",
+		why: "old-structure metadata, only used by recipients that hold a reference (previous holders, anchored parties)"},
+	{scenarioPrefix: "redistribute-handover", round: "RedistributeRound2", class: "/ZeroVerificationVector/*",
+		why: "zero-sharing commitments, only checked per sender against a reference the anchorless next-only recipients do not have"},
+	{scenarioPrefix: "redistribute-handover", round: "RedistributeRound2", class: "/PrevVerificationVector/*",
+		notPath: "/PrevVerificationVector/verification_vector/data/0/",
+		why:     "higher coefficients of the previous verification vector: only the constant term (the claimed previous public key) is compared by anchorless next-only recipients"},
+	{scenarioPrefix: "redistribute-handover", from: 4, why: "next-only holder: its round-1/2 broadcasts carry no protocol content"},
+	{scenarioPrefix: "redistribute-handover", from: 5, why: "next-only holder: its round-1/2 broadcasts carry no protocol content"},
+	{scenarioPrefix: "redistribute-handover", from: 6, why: "next-only holder: its round-1/2 broadcasts carry no protocol content"},
 	{scenarioPrefix: "redistribute-to-unanimity", from: 3,
 		why: "party 3 is a next-only holder in this scenario: its round-1/2 messages carry no protocol content (Validate ignores non-previous shareholders), so altering them changes nothing"},
 }
